@@ -104,13 +104,13 @@ pub open spec fn sha_now(fs: Map<Seq<char>, Seq<u8>>, p: Seq<char>) -> Seq<char>
     if is_dir_spec(p) || !fs.dom().contains(p) { Seq::<char>::empty() } else { hex(sha256(fs[p])) }
 }
 
-//!fn src/core/file.rs get_file_checksum rules=R10,R12 props=C07,C02
+//!fn src/core/file.rs get_file_checksum rules=R10,R12 props=C07,C02,C01
 @#[verifier::exec_allows_no_decreases_clause]
 pub(crate) async fn get_file_checksum(p: &path::Path, Tracked(w): Tracked<&mut World>) -> ⟦(res: ⟧Result<String, MonorailError>⟦)⟧
 @    ensures
 @        *final(w) == *old(w),
 @        // C07 / C02: a function of the file's WHOLE current content (whatever its size), the same wherever it is called from
-@        res matches Ok(s) ==> s@ == sha_now(old(w).fs, p@), // [C07,C02]
+@        res matches Ok(s) ==> s@ == sha_now(old(w).fs, p@), // [C07,C02,C01]
 {
 @    broadcast use axiom_digest_len;
     let md = match tokio_fs::metadata_async(p, Tracked(w)).await {
@@ -163,7 +163,7 @@ pub(crate) async fn get_file_checksum(p: &path::Path, Tracked(w): Tracked<&mut W
     Ok(sha2::hex_of(hasher.finalize()))
 }
 //!end
-//!fn src/core/file.rs checksum_is_equal rules=R10,R12 props=C07,C02
+//!fn src/core/file.rs checksum_is_equal rules=R10,R12 props=C07,C02,C01
 pub(crate) async fn checksum_is_equal(
     pending: &HashMap<String, String>,
     work_path: &path::Path,
@@ -172,7 +172,7 @@ pub(crate) async fn checksum_is_equal(
 @    ensures
 @        *final(w) == *old(w),
 @        // C02 / C07: a path is settled only if the pending map records exactly the checksum of its current content
-@        r ==> pending@.dom().contains(name@) && pending@[name@]@ == sha_now(old(w).fs, path_join(work_path@, name@)), // [C07,C02]
+@        r ==> pending@.dom().contains(name@) && pending@[name@]@ == sha_now(old(w).fs, path_join(work_path@, name@)), // [C07,C02,C01]
 @        !pending@.dom().contains(name@) ==> !r,
 {
     match pending.get(name) {
